@@ -77,7 +77,7 @@ Definition gpkg_of_arg (a : arg) : gpkg :=
   mkgpkg (arg_N (arg_nth 0 a)) (arg_N (arg_nth 1 a)) (arg_bytes (arg_nth 2 a))
          (ghdr_of_arg (arg_nth 3 a)) (arg_bytes (arg_nth 4 a)) (ghdr_of_arg (arg_nth 5 a)) (arg_bytes (arg_nth 6 a)).
 
-(* signature packets: (form version sigtype algo hash created issuer (hashed...) (unhashed...) hashtag (mpi...));
+(* signature packets: (form version sigtype algo hash created issuer (hashed...) (unhashed...) hashtag ((bits octets)...));
    form = (0 lt) | (1 f) | (2 (k...) f); subpacket = (lenform type data) *)
 Definition subpkt_of_arg (a : arg) : subpkt :=
   mksub (arg_N (arg_nth 0 a)) (arg_N (arg_nth 1 a)) (arg_bytes (arg_nth 2 a)).
@@ -92,7 +92,8 @@ Definition gsig_of_arg (a : arg) : gsig :=
   mkgsig (pform_of_arg (arg_nth 0 a)) (arg_N (arg_nth 1 a)) (arg_N (arg_nth 2 a)) (arg_N (arg_nth 3 a)) (arg_N (arg_nth 4 a))
          (be_to_N (arg_bytes (arg_nth 5 a))) (be_to_N (arg_bytes (arg_nth 6 a)))
          (map subpkt_of_arg (arg_list (arg_nth 7 a))) (map subpkt_of_arg (arg_list (arg_nth 8 a)))
-         (arg_bytes (arg_nth 9 a)) (map arg_bytes (arg_list (arg_nth 10 a))).
+         (arg_bytes (arg_nth 9 a))
+         (map (fun m => (arg_N (arg_nth 0 m), arg_bytes (arg_nth 1 m))) (arg_list (arg_nth 10 a))).
 
 Definition gsigs_of_arg (a : arg) : gsigs :=
   mkgsigs (opt_of_arg gsig_of_arg (arg_nth 0 a)) (opt_of_arg gsig_of_arg (arg_nth 1 a))
